@@ -15,7 +15,9 @@ RULE = (
     'boundaries (quick: sampled, thorough: every boundary x up to 3 victims); an execution '
     'is non-trivial if >= 2 distinct activities were activated and at least one foreign '
     'signal (cancel, scope abort, until-interrupt, close) was observed by program code or a '
-    'scope/until block was left; distinct = distinct activation trace (label,time) sequence'
+    'scope/until block was left; distinct = distinct activation trace (label,time) sequence. '
+    'Every 60th case runs 2-4 OS threads that each execute such programs at the same time '
+    '(switch interval 1 us), every simulation judged by the same monitors'
 )
 LEVEL_TEXT = (
     'Fault enumeration by runtime monitoring: thousands of random valid programs over the whole '
@@ -30,7 +32,8 @@ ASSUMPTIONS = [
     'CPython 3.12.1, configurations base/SD/-O/junk rotated over shards',
     'probe attaches to Loop.run, Loop.schedule, Loop._run_coroutine',
 ]
-REQUIRED_STATS = ['activations', 'owner_checked', 'exceptions_observed', 'injected']
+REQUIRED_STATS = ['activations', 'owner_checked', 'exceptions_observed', 'injected',
+                  'programs_in_threads']
 
 
 def n_cases(tier):
@@ -38,6 +41,9 @@ def n_cases(tier):
 
 
 def make_case(seed, index, tier):
+    if index % 60 == 59:
+        # the same kind of programs, several simulations in progress at once in OS threads
+        return {'gen': 'threads', 'seed': seed, 'index': index, 'tier': tier}
     return {'gen': 'general', 'seed': seed, 'index': index, 'tier': tier}
 
 
@@ -131,7 +137,87 @@ def d15_canary():
             if vio['mechanism'] == 'first-internal-cancelscope-hits-consumer'][:1]
 
 
+def run_threads(case):
+    """valid programs stay valid when other threads run simulations of their own: every
+    simulation is judged by the same classifiers and kernel monitors as when run alone"""
+    import sys
+    import threading
+    from ..c02trace import build as build_program
+    from .c15 import digest_of
+    rng = random.Random('%s/%s/c03-threads' % (case['seed'], case['index']))
+    stats = {'activations': 0, 'thread_batches': 1, 'programs_in_threads': 0,
+             'thread_switches_observed': 0}
+    for key in common.STAT_KEYS:
+        stats[key] = 0
+    pool = []
+    index = case['index'] * 1000
+    while len(pool) < 8 and index < case['index'] * 1000 + 120:
+        program = build_program(case['seed'], index)
+        index += 1
+        _, sess, clean = digest_of(program)
+        # only programs that end with all their activities finished: what the collector does
+        # with left-over coroutines in another thread is not the subject here
+        if clean and not [v for v in sess.violations if relevant(v['mechanism'])]:
+            pool.append(program)
+    violations = []
+    sigs = []
+    if len(pool) < 2:
+        return {'evals': 0, 'sigs': [], 'stats': stats, 'violations': []}
+    n_threads = rng.choice([2, 3, 4])
+    per_thread = 6 if case['tier'] == 'quick' else 20
+    picks = [[rng.randrange(len(pool)) for _ in range(per_thread)] for _ in range(n_threads)]
+    found = []
+    errors = []
+    gate = threading.Barrier(n_threads)
+
+    def worker(number):
+        try:
+            gate.wait(30)
+            for which in picks[number]:
+                env, sess = common.one_run(pool[which], None)
+                found.append((number, which, sess, env))
+        except BaseException as exc:  # noqa: B902
+            errors.append('thread %d crashed: %r' % (number, exc))
+
+    old_interval = sys.getswitchinterval()
+    sys.setswitchinterval(1e-6)
+    threads = [threading.Thread(target=worker, args=(number,)) for number in range(n_threads)]
+    try:
+        for thread in threads:
+            thread.start()
+        for thread in threads:
+            thread.join(600)
+    finally:
+        sys.setswitchinterval(old_interval)
+    if any(thread.is_alive() for thread in threads):
+        errors.append('a simulation thread did not finish within 600 s')
+    for error in errors:
+        violations.append({'mechanism': 'thread-error', 'msg': error, 'case': dict(case)})
+    for number, which, sess, env in found:
+        stats['programs_in_threads'] += 1
+        stats['activations'] += sess.n
+        stats['thread_switches_observed'] += sess.thread_switches
+        for key in common.STAT_KEYS:
+            stats[key] += sess.stats.get(key, 0)
+        if sess.thread_switches:
+            sigs.append('t/' + sess.signature())
+        for vio in sess.violations:
+            if relevant(vio['mechanism']):
+                vio = dict(vio, case=dict(case))
+                vio['msg'] = '%s (program %d of the pool, thread %d of %d)' % (
+                    vio['msg'], which, number, n_threads)
+                violations.append(vio)
+        if env.outcome != 'ok':
+            violations.append({
+                'mechanism': 'thread-influenced-outcome',
+                'msg': 'a program that ends normally when run alone ended with %r while other '
+                       'threads ran simulations' % (env.outcome,), 'case': dict(case)})
+    return {'evals': len(found), 'sigs': sigs, 'stats': stats, 'violations': violations}
+
+
 def run_case(case):
+    if case.get('gen') == 'threads':
+        return run_threads(case)
     if case.get('canary') == 'd15':
         return {'evals': 1, 'sigs': [], 'stats': {'canary_runs': 1}, 'violations': d15_canary()}
     if case.get('canary') == 'd16':
